@@ -31,6 +31,20 @@ CHECKS = {
          "Constructors and conversions for every source length 0..=2N+1 and every source/destination layout."),
  "C20": ("exploration", "3.20", "exhaustive relocation counting: surviving element identities whose address changed, against the documented bound",
          "Relocations are counted through element addresses before and after every listed operation from every layout."),
+ "C13": ("exploration", "3.13", "exhaustive pairwise PBT: all capacity pairs x all layouts of both sides x all contents over a small alphabet, expected results computed from the logical sequences; Debug under 32 format strings; proptest for wider capacities",
+         "Every split of one side into two physical segments meets every split of the other, for ==, partial_cmp, cmp, hash and all slice/array/reference partners, including NaN contents and heterogeneous element types."),
+ "C14": ("exploration", "3.14", "reference-model PBT with a byte-queue model: exhaustive single and double steps with every size class from every layout, unoccupied bytes filled adversarially; proptest histories",
+         "write/read/fill_buf/consume/flush (and the provided methods users call) with every length class from every layout of capacities 0..=8, then random histories up to capacity 256."),
+ "C15": ("exploration", "3.15", "grammar-generated client programs compiled with rustc against the current tree; differential against the same program over VecDeque / arrays / slices plus the expectation table",
+         "The quantifier is over programs: 293 witness programs (borrow held, outlive, variance, auto traits, const contexts, bound-free impls) are generated and compiled; must-reject programs must fail for a borrow/lifetime/trait reason while their must-accept twins compile."),
+ "C16": ("exploration", "3.16", "differential PBT: embedded-io / embedded-io-async calls vs std::io calls on a twin buffer in the same state, under the three feature builds; async polled once",
+         "The C14 case space is replayed through the embedded-io traits with a std::io twin; counts, bytes, fill_buf slices and contents must be identical, never Err, never Pending."),
+ "C17": ("exploration", "3.17", "PBT with a counting global allocator around every single crate call, in three feature configurations; core-only sysroot builds for the no_std sentence",
+         "Every operation (including creation, each step and the drop of iterators/drains) performs zero allocations in builds of the crate with {std}, {} and {alloc}; the library also builds against a core-only and a core+alloc sysroot."),
+ "C18": ("exploration", "3.18", "differential PBT across builds: per-unit trace digests of the complete C01-C12/C20 case spaces, stable default build vs nightly + unstable feature; the unstable build also runs every oracle",
+         "Same generated cases (pure function of the seed) in both builds; results, contents, panic flags, lifecycle events and injected-fault outcomes must be identical."),
+ "C19": ("exploration", "3.19", "counter-model PBT over a drop-counting zero-sized element at 13 extreme capacities, assertion/overflow-checked and release builds",
+         "Front positions just below N (where position arithmetic exceeds the machine word) and near 0, every operation whose cost does not depend on N, boundary arguments and every bound pair."),
 }
 
 NOT_YET = {}
@@ -45,7 +59,7 @@ def main():
             "thorough_cmd": f"./check {pid} --tier thorough",
             "evidence_file": f"evidence/{pid}.json",
             "replay_cmd_template": f"./check {pid} --replay {{path}}",
-            "engine": "cbverif",
+            "engine": "c15" if pid == "C15" else "cbverif",
             "level_claimed": {"category": level, "text": text, "design_ref": f"DESIGN.md {ref}"},
             "level_note": "Trusted base: the reference model / oracle written from the crate documentation, the Tracked element ledger, rustc and the standard library. Exhaustive only for the stated small scope; larger capacities and long histories are sampled.",
             "technique": tech,
@@ -63,7 +77,8 @@ def main():
             "add_only": True,
         },
         "engines": [
-            {"name": "cbverif", "path": "harness", "serves_properties": sorted(CHECKS), "kind_free_text": "Rust harness: enumerative + proptest generators, one interpreter, reference model and element ledger; driven by ./check (python)"},
+            {"name": "cbverif", "path": "harness", "serves_properties": [p for p in sorted(CHECKS) if p != "C15"], "kind_free_text": "Rust harness: enumerative + proptest generators; interpreter with reference model and element ledger (C01-C12, C20), pair-comparison engine (C13), byte-I/O engine (C14, C16), counting-allocator engine (C17), zero-sized/extreme-capacity engine (C19), cross-build digests (C18); driven by ./check (python)"},
+            {"name": "c15", "path": "lib/c15.py", "serves_properties": ["C15"], "kind_free_text": "witness-program generator + rustc as the judge"},
         ],
         "checks": checks,
         "not_applicable": na,
